@@ -231,7 +231,7 @@ class Executor:
                         j += 1
                 i = j
                 if subs:
-                    trace.append(self._observe({"op": "batch", "b": subs[-1]["b"], "out": "ok", "ops": subs}))
+                    trace.append(self._observe({"op": "batch", "b": subs[-1]["b"], "out": "ok", "ops": subs, "ctrl": {"has": False}}))
                 continue
             rec = self.step(ops[i])
             i += 1
@@ -625,6 +625,111 @@ def random_history(rnd, profile="mixed", buckets=("A", "B", "C"), maxlen=16):
             exists[b] = False
             live[b] = set()
     return ops
+
+
+# -------------------------------------------------------------------------------------------------
+# frame probes (C04 without intermediate reads): a run of writes, then ONE call addressed to another bucket, then
+# one observation - and a control execution of the same history without that last call
+
+def random_probe(rnd):
+    """(setup ops, run of no-read calls whose last one addresses a bucket none of the others addressed)"""
+    ev = lambda i: {"id": i, "ts": rnd.randrange(0, 4), "dur": rnd.randrange(0, 3), "d": rnd.choice(["d1", "d2"])}
+    meta = lambda: {"type": "s1", "client": "s1", "host": "s1", "name": rnd.choice(["s1", "None"]), "data": rnd.choice(["m0", "m1"]), "created": 0}
+    other = "C"
+    setup = [{"op": "create", "b": "A", "meta": meta()}]
+    if rnd.random() < 0.7:
+        setup.append({"op": "create", "b": "B", "meta": meta()})
+    c_exists = rnd.random() < 0.5
+    if c_exists:
+        setup.append({"op": "create", "b": other, "meta": meta()})
+        for i in range(rnd.randint(0, 2)):
+            setup.append({"op": "insert", "b": other, "ev": ev(10 + i)})
+    nid = [0]
+    for b in ("A", "B"):
+        for _ in range(rnd.randint(0, 2)):
+            if b == "A" or len(setup) > 1 and setup[1]["b"] == "B":
+                setup.append({"op": "insert", "b": b, "ev": ev(nid[0])})
+                nid[0] += 1
+    run = []
+    targets = ["A"] + (["B"] if any(o["op"] == "create" and o["b"] == "B" for o in setup) else [])
+    for _ in range(rnd.randint(1, 5)):
+        b = rnd.choice(targets)
+        k = rnd.choice(["insert", "insert", "insert", "update", "delete", "replace"])
+        if k == "insert":
+            run.append({"op": "insert", "b": b, "ev": ev(100 + len(run))})
+        elif k == "update":
+            run.append({"op": "update", "b": b, "f": {"type": "-", "client": "s2", "host": "-", "name": "-", "data": "-"}})
+        elif k == "delete":
+            run.append({"op": "delete", "b": b, "id": rnd.randrange(0, 3)})
+        else:
+            run.append({"op": "replace", "b": b, "ev": ev(rnd.randrange(0, 3))})
+    if c_exists:
+        last = rnd.choice([{"op": "delete_bucket", "b": other}, {"op": "update", "b": other, "f": {"type": "s2", "client": "-", "host": "-", "name": "-", "data": "-"}},
+                           {"op": "insert", "b": other, "ev": ev(50)}, {"op": "delete", "b": other, "id": 10}, {"op": "delete", "b": other, "id": 77},
+                           {"op": "replace", "b": other, "ev": ev(10)}, {"op": "foreign", "b": other}])
+    else:
+        last = rnd.choice([{"op": "absent", "b": other, "kind": k} for k in ("lookup", "describe", "update", "delete")] + [{"op": "create", "b": other, "meta": meta()}])
+    return setup, run + [last]
+
+
+def _probe_once(kind, root, tag, seed, uniq, setup, run):
+    ds = mk_datastore(kind, root, tag)
+    try:
+        ex = Executor(ds, kind, random.Random(seed), uniq)
+        tr = []
+        for o in setup:
+            r = ex.step(o)
+            if r is not None:
+                tr.append(ex._observe(r))
+        pre = ex.proj()
+        subs = []
+        for o in run:
+            r = ex.foreign_noread(o) if o["op"] == "foreign" else ex.step_noread(o)
+            if r is not None:
+                subs.append(r)
+        st = ex.proj()
+        base, scale = ex.cz.base.isoformat(), ex.cz.scale
+    finally:
+        close_datastore(kind, ds)
+    return tr, pre, subs, st, base, scale
+
+
+def _probe_worker(args):
+    kind, seed, jobs = args
+    root = common.scratch_dir("p%d_%s_%d" % (os.getpid(), kind, seed % 100000))
+    out = []
+    try:
+        for n, (key, (setup, run)) in enumerate(jobs):
+            s = seed * 1000 + n
+            # control: the same history in a fresh store, without the last call of the run
+            _, cpre, csubs, cst, _, _ = _probe_once(kind, root, "c%d" % n, s, "%s%d" % (key, n), setup, run[:-1])
+            tr, pre, subs, st, base, scale = _probe_once(kind, root, "f%d" % n, s, "%s%d" % (key, n), setup, run)
+            if not subs or len(subs) != len(csubs) + 1:
+                continue          # the last call was not applicable (nothing to probe)
+            rec = {"op": "batch", "b": subs[-1]["b"], "out": "ok", "ops": subs, "st": st,
+                   "ctrl": {"has": True, "pre": cpre, "ops": csubs, "st": cst}}
+            out.append((key, {"backend": kind, "base": base, "scale": scale, "ops": setup + run, "probe": [setup, run], "trace": tr + [rec]}))
+    finally:
+        shutil.rmtree(root, ignore_errors=True)
+    return out
+
+
+def run_probes(probes, seed, backends=BACKENDS, procs=None):
+    procs = procs or common.ncpu()
+    per = max(1, procs // len(backends))
+    tasks = []
+    for bi, kind in enumerate(backends):
+        for w in range(per):
+            jobs = probes[w::per]
+            if jobs:
+                tasks.append((kind, seed * 1000 + bi * 100 + w, jobs))
+    res = common.pmap(_probe_worker, tasks, procs=len(tasks))
+    flat = []
+    for part in res:
+        for key, rec in part:
+            rec["key"] = key
+            flat.append(rec)
+    return flat
 
 
 def restrict(ops, allow_foreign):
